@@ -61,7 +61,7 @@ REL = {   # which clauses of the session contract decide which property
 }
 
 
-def job(prefix, group, codec, key, seq, api=0, finish=0, cb=0, rnd=(0,), ln=1, release=1, timeout=150, leak=True, prop=None):
+def job(prefix, group, codec, key, seq, api=0, finish=0, cb=0, rnd=(0,), ln=1, release=1, timeout=400, leak=True, prop=None):
     if codec == 3:
         k, r, n1, seed, extra, rows = LDPC[key]
         defs = {"OFV_CODEC": 3, "OFV_K": k, "OFV_R": r, "OFV_N1": n1, "OFV_SEED": seed, "OFV_EXTRA": extra, "OFV_ROWS": clist(rows)}
